@@ -4,7 +4,7 @@ import re
 
 from sa import fold, nf, roles, astutil as U
 from sa.roles import Canon
-from sa.loader import norm_text, dotted
+from sa.loader import norm_text, dotted, loc, AnalysisError
 from sa.selftest import Mutant
 
 PROPERTY = 'C05'
@@ -30,13 +30,13 @@ EXPLANATION = ('ELEM typed-comparison scan over musicxml_parser; PITCH affine fo
 TRUSTED = ['ElementTree API types', 'circle-of-fifths / letter oracle', 'constant folding']
 NOT_DECIDED = ['onset/duration values', 'time-signature repair of partial measures', '.text on a possibly missing child (AttributeError) for ill-formed scores - outside the quantifier (well-formed scores)']
 ASSUMPTIONS = []
-FLOORS = {'ELEM': 12, 'PITCH': 6, 'CONV': 8, 'KEY': 17, 'KIND': 40, 'FIG': 2, 'CONTAIN': 4}
+FLOORS = {'ELEM/schema-child': 70, 'ELEM/schema-attr': 8, 'ELEM': 12, 'PITCH': 6, 'CONV': 8, 'KEY': 17, 'KIND': 40, 'FIG': 2, 'CONTAIN': 4}
 
 LETTER_PC = {'C': 0, 'D': 2, 'E': 4, 'F': 5, 'G': 7, 'A': 9, 'B': 11}
 
 
 def E(t):
-  return ast.parse(t, mode='eval').body
+  return U.E(t)
 
 
 def run(ctx):
@@ -46,6 +46,11 @@ def run(ctx):
   keys(ctx)
   kinds(ctx)
   contain(ctx)
+  schema_navigation(ctx)
+  from sa import state
+  mi = ctx.P.module('musicxml_parser')
+  for ci in sorted(mi.all_classes.values(), key=lambda c: c.qualname):
+    state.check_instance_state(ctx, ci, 'STATE/per-object', mro=ctx.P.mro(ci)[1:] if hasattr(ctx.P, 'mro') else None)
 
 
 # ------------------------------------------------------------------ S1
@@ -441,7 +446,55 @@ def contain(ctx):
   ctx.ob('CONTAIN/one-score', gs, br or gs.node, ok, 'the .mxl and .xml branches deliver the score through one variable' if ok else 'the .mxl and .xml branches do not end in the same score variable')
 
 
+# ------------------------------------------------------------------ element-tag typing against the MusicXML schema
+UNTRACKED_ROOTS = {
+    # (function, receiver text): reason the receiver's tag is not known
+    ('MusicXMLDocument._get_score', 'findall'): 'root of META-INF/container.xml, parsed from bytes; only the steps below it are checked',
+}
+
+
+def schema_navigation(ctx):
+  """Every find()/findall()/child.tag ==/attribute read of the parser names a child
+  (or attribute) the MusicXML schema allows under the element it is applied to."""
+  from sa import xmltags, musicxml_schema as MS
+  mi = ctx.P.module('musicxml_parser')
+  doc = mi.all_classes.get('MusicXMLDocument')
+  ctx.require(doc is not None and '_parse' in doc.methods and '_get_score' in doc.methods, 'MusicXMLDocument._parse/_get_score not found')
+  ta = xmltags.TagAnalysis(ctx.P, mi, {('MusicXMLDocument', '_score'): xmltags.Tags(['score-partwise'])})
+  ta.run([(doc.methods['_parse'], {}), (doc.methods['_get_score'], {})])
+  known_nodes = set(k[0] for k in ta.sites)
+  for sx in sorted(ta.sites.values(), key=lambda x: (x.node.lineno, x.node.col_offset, sorted(x.parents), x.name)):
+    table = MS.CHILDREN if sx.kind == 'child' else MS.ATTRIBUTES
+    for par in sorted(sx.parents):
+      if sx.kind == 'child' and par not in table:
+        raise AnalysisError('the parser navigates below <%s> (%s), which the schema table does not describe: cannot decide' % (par, loc(mi, sx.node)))
+      ok = sx.name in table.get(par, ())
+      what = 'child element' if sx.kind == 'child' else 'attribute'
+      ctx.ob('ELEM/schema-' + sx.kind, sx.func, sx.node, ok,
+             '<%s> may have %s %s' % (par, what, sx.name) if ok else
+             '%s reads %s "%s" of a <%s> element, which the MusicXML schema does not define there (allowed: %s): the value is never found' % (
+                 sx.func.qualname, what, sx.name, par, ', '.join(sorted(table.get(par, ()))) or 'none'),
+             construct='<%s> %s %s @ %s' % (par, what, sx.name, norm_text(sx.node)[:60]), chain=list(sx.chain))
+  for nid, (node, fi) in sorted(ta.unknown.items(), key=lambda kv: kv[1][0].lineno):
+    if nid in known_nodes:
+      continue      # reached once with no element (default None argument) and once with one
+    why = None
+    for (fn, attr), reason in UNTRACKED_ROOTS.items():
+      if fi.qualname == fn and isinstance(node, ast.Call) and isinstance(node.func, ast.Attribute) and node.func.attr == attr:
+        why = reason
+    if why is None:
+      raise AnalysisError('%s: navigation `%s` on an element whose tag the analysis cannot determine' % (loc(mi, node), norm_text(node)[:80]))
+    ctx.note('untracked receiver at %s: %s' % (loc(mi, node), why))
+
+
 MUTANTS = [
+    Mutant('seed C05_b: bass alteration read from root-alter', P, "alter_tag='bass-alter'", "alter_tag='root-alter'", rule='ELEM/schema-child'),
+    Mutant('root step read as <step>', P, "step_tag='root-step'", "step_tag='step'", rule='ELEM/schema-child'),
+    Mutant('pitch alteration read from <accidental>', P, "    if xml_pitch.find('alter') is not None:\n      alter_text = xml_pitch.find('alter').text", "    if xml_pitch.find('accidental') is not None:\n      alter_text = xml_pitch.find('accidental').text", rule='ELEM/schema-child'),
+    Mutant('transposition read from <diatonic-steps>', P, "child.find('chromatic')", "child.find('diatonic-steps')", rule='ELEM/schema-child'),
+    Mutant('tempo read from a bpm attribute', P, "self.xml_sound.get('tempo')", "self.xml_sound.get('bpm')", rule='ELEM/schema-attr'),
+    Mutant('time signature dispatched on <time-signature>', P, "      elif child.tag == 'time':", "      elif child.tag == 'time-signature':", rule='ELEM/schema-child'),
+    Mutant('tag read through a temporary (harmless)', P, "    xml_duration = xml_backup.find('duration')", "    tag_name = 'duration'\n    xml_duration = xml_backup.find(tag_name)", expect='silent'),
     Mutant('mode element compared with text again', P, "    mode = xml_mode.text if xml_mode is not None else None\n", "    mode = xml_mode\n", rule='ELEM/'),
     Mutant('fifths element compared with text', P, "    fifths = self.xml_key.find('fifths')\n    if fifths is None:", "    fifths = self.xml_key.find('fifths')\n    if fifths == '':", rule='ELEM/'),
     Mutant('alteration wraps in the octave', P, "    midi_pitch = (12 + pitch_class + int(alter)) + (int(octave) * 12)", "    midi_pitch = (12 + (pitch_class + int(alter)) % 12) + (int(octave) * 12)", rule='PITCH/affine'),
@@ -469,6 +522,7 @@ MUTANTS = [
            "    steps = {'C': 0, 'D': 2, 'E': 4, 'F': 5, 'G': 7, 'A': 9, 'B': 11}\n    if step not in steps:\n      raise PitchStepParseError('Unable to parse pitch step ' + step)\n    pitch_class = steps[step]\n", expect='silent'),
 ]
 
-RENAME_FUNCS = [(P, 'Note.pitch_to_midi_pitch'), (P, 'Measure._parse_backup'), (P, 'Measure._parse_forward'), (P, 'NoteDuration.parse_duration'),
+RENAME_FUNCS = [(P, 'Measure._parse'), (P, 'Note._parse'), (P, 'ChordSymbol._parse'), (P, 'ChordSymbol._parse_pitch'), (P, 'ScorePart._parse'), (P, 'MusicXMLDocument._parse'),
+                (P, 'Note.pitch_to_midi_pitch'), (P, 'Measure._parse_backup'), (P, 'Measure._parse_forward'), (P, 'NoteDuration.parse_duration'),
                 (P, 'KeySignature._parse'), (P, 'ChordSymbol.get_figure_string'), (P, 'Measure._parse_direction'), (R, 'musicxml_to_sequence_proto'),
                 (R, 'musicxml_file_to_sequence_proto'), (P, 'Note._parse_pitch'), (P, 'Measure._parse_attributes')]
